@@ -113,7 +113,7 @@ def cases(draw, tier="quick"):
     return base
 
 
-FUZZ = {"thorough": {"runs": 6000, "children": 4, "wall": 1500}}
+FUZZ = {"thorough": {"runs": 6000, "children": 4, "wall": 900}}
 
 
 @st.composite
